@@ -103,7 +103,7 @@ def _same(a, b, exact_only=False):
 
 def _history(item):
     """call one recipe in every variant; returns the case for Purity.tla"""
-    name, seed = item
+    name, seed, wk = item
     R = recipes.recipes()
     fn, mk = R[name]
     events = []
@@ -139,7 +139,7 @@ def _history(item):
             events.append({"variant": kind, "world": "int" if integral else "float", "mutated": mutated,
                            "resclass": "%s-%d" % ("int" if integral else "float", cls),
                            "outcome": out, "shown": json.dumps(res["value"])[:160] if out == "returned" else res["value"]})
-    return {"id": name, "fn": name, "events": events}
+    return {"id": "%s#%d" % (name, wk), "fn": name, "events": events, "seed": seed, "wk": wk}
 
 
 def _public_inventory():
@@ -248,7 +248,9 @@ def run(ctx):
     ctx.extra["public_functions"] = len(inv)
     ctx.extra["public_functions_driven"] = len([f for f in inv if f in driven])
     ctx.extra["not_driven"] = dict(recipes.NOT_DRIVEN, **{g: "NO RECIPE (coverage gap)" for g in gaps})
-    hist = par.pmap(_history, [(name, ctx.seed) for name in sorted(R)], chunksize=4)
+    nworlds = 3 if ctx.quick else 12
+    hist = par.pmap(_history, [(name, ctx.seed * 1000 + wk, wk) for name in sorted(R) for wk in range(nworlds)], chunksize=4)
+    ctx.extra["worlds_per_recipe"] = nworlds
     cases = []
     for h in hist:
         cases += _split_cases(h)
@@ -256,20 +258,22 @@ def run(ctx):
     rej = ctx.trace("Purity", cases, selftest=_selftests(), chunk=400)
     for h in hist:
         ctx.count(("dyn", h["id"]), any(ch.isdigit() for e in h["events"] for ch in str(e["shown"])))
+        name = h["fn"]
         for e in h["events"]:
             if e["outcome"] != "returned" and e["variant"] == "C":
                 # a recipe that cannot even run on the plain representation: linkage failures are violations, the rest a gap
                 if any(t in e["outcome"] for t in ("NameError", "AttributeError", "UnboundLocalError")) or \
                         ("TypeError" in e["outcome"] and "argument" in str(e["shown"])):
-                    ctx.violation("unlinked-at-runtime", {"kind": "dyn", "fn": h["id"], "seed": ctx.seed},
-                                  {"outcome": e["outcome"], "error": e["shown"]}, match="unlinked-at-runtime:%s" % h["id"].split("[")[0])
+                    ctx.violation("unlinked-at-runtime", {"kind": "dyn", "fn": name, "seed": h["seed"], "wk": h["wk"]},
+                                  {"outcome": e["outcome"], "error": e["shown"]}, match="unlinked-at-runtime:%s" % name.split("[")[0])
                 else:
-                    ctx.note("recipe %s does not run on the %s world: %s %s" % (h["id"], e["world"], e["outcome"], e["shown"]))
+                    if h["wk"] == 0:
+                        ctx.note("recipe %s does not run on the %s world: %s %s" % (name, e["world"], e["outcome"], e["shown"]))
     for cid, vs in rej.items():
-        name = cid.rsplit("@", 1)[0]
-        h = byname[name]
+        h = byname[cid.rsplit("@", 1)[0]]
+        name = h["fn"]
         clause = vs[0][0]
-        ctx.violation("%s(%s)" % (clause, name.split("[")[0]), {"kind": "dyn", "fn": name, "seed": ctx.seed},
+        ctx.violation("%s(%s)" % (clause, name.split("[")[0]), {"kind": "dyn", "fn": name, "seed": h["seed"], "wk": h["wk"]},
                       {"verdict": vs[0], "events": [{k: e[k] for k in ("variant", "world", "mutated", "resclass", "outcome", "shown")} for e in h["events"]]},
                       match="%s:%s" % (clause, name.split("[")[0]))
     ctx.traces += 0
@@ -281,7 +285,7 @@ def replay(ctx, obj):
     if c["kind"] == "static":
         _static(ctx)
         return
-    h = _history((c["fn"], c.get("seed", 0)))
+    h = _history((c["fn"], c.get("seed", 0), c.get("wk", 0)))
     rej = ctx.trace("Purity", _split_cases(h))
     for cid, vs in rej.items():
         ctx.violation("%s(%s)" % (vs[0][0], c["fn"].split("[")[0]), c, {"verdict": vs[0], "events": h["events"]})
